@@ -229,6 +229,11 @@ func c09Inputs(c *core.Ctx) {
 			for i, s := range seqs[start:end] {
 				rec := absValue(recT, "r", eval.K(4)).(*eval.StructVal)
 				rec.F["ID"] = eval.S(fmt.Sprintf("s%d_%s", i, s))
+				if i == 1 {
+					rec.F["ID"] = eval.S("query") // a record may be called like a column of the header
+				} else if i == 2 {
+					rec.F["ID"] = eval.S("ref 1|2-3;x") // a name is data: separators of the other columns may occur in it
+				}
 				rec.F["Idx"] = eval.K(int64(i))
 				rec.F["Seq"] = enc(s)
 				feed = append(feed, rec)
